@@ -275,6 +275,8 @@ pub fn run_check(prop: &str, tier: &str, seed: u64, workers: usize, backend: &st
     let stop = Arc::new(AtomicBool::new(!found.is_empty()));
     let found_sh: Arc<Mutex<Vec<Found>>> = Arc::new(Mutex::new(Vec::new()));
     let known_seen: Arc<Mutex<Vec<(String, String, u64)>>> = Arc::new(Mutex::new(Vec::new()));
+    let survey = std::env::var("FLATSIM_SURVEY").is_ok();
+    let survey_seen: Arc<Mutex<Vec<(String, String, u64)>>> = Arc::new(Mutex::new(Vec::new()));
     let inflight: Vec<Arc<Mutex<Option<(Instant, Scenario)>>>> = (0..workers).map(|_| Arc::new(Mutex::new(None))).collect();
     let done_flag = Arc::new(AtomicBool::new(false));
     // wall-clock watchdog: the only non-logical element; fires only on a real hang
@@ -312,6 +314,7 @@ pub fn run_check(prop: &str, tier: &str, seed: u64, workers: usize, backend: &st
         let stop = stop.clone();
         let found_sh = found_sh.clone();
         let known_seen = known_seen.clone();
+        let survey_seen = survey_seen.clone();
         let findings = findings.clone();
         let sys = sys.clone();
         let slot = inflight[wid].clone();
@@ -349,6 +352,13 @@ pub fn run_check(prop: &str, tier: &str, seed: u64, workers: usize, backend: &st
                                     Some(e) => e.2 += 1,
                                     None => ks.push((sig, k.what.clone(), 1)),
                                 }
+                            } else if survey {
+                                let mut ks = survey_seen.lock().unwrap();
+                                let key = format!("{} :: {}", sig, sc.type_name);
+                                match ks.iter_mut().find(|x| x.0 == key) {
+                                    Some(e) => e.2 += 1,
+                                    None => ks.push((key, format!("world={:?} seed={} :: {}", sc.world, sc.seed, v.detail), 1)),
+                                }
                             } else {
                                 let mut sc2 = sc.clone();
                                 sc2.tape = Some(out.tape.clone());
@@ -380,6 +390,13 @@ pub fn run_check(prop: &str, tier: &str, seed: u64, workers: usize, backend: &st
     let wall = t0.elapsed().as_secs_f64();
     for (sig, what, n) in known_seen.lock().unwrap().iter() {
         println!("KNOWN-FINDING: property={} {} [signature {}; hit by {} runs]", prop, what, sig, n);
+    }
+    {
+        let mut ss = survey_seen.lock().unwrap();
+        ss.sort();
+        for (key, ex, n) in ss.iter() {
+            println!("SURVEY {:>8} x {}\n           e.g. {}", n, key, ex);
+        }
     }
     if !agg.harness_errors.is_empty() {
         for e in &agg.harness_errors {
@@ -501,6 +518,27 @@ pub fn replay_file(path: &str) -> i32 {
             0
         }
     }
+}
+
+/// Run one seeded scenario; if it violates, minimise it and write the replay file to `out`.
+pub fn minimise_seed(prop: &str, world: &str, ty: usize, seed: u64, backend: &str, out: &str) -> i32 {
+    let w = if world == "async" { WorldKind::Async } else { WorldKind::Blocking };
+    let sc = base_scenario(prop, w, backend, ty, seed);
+    let scs = if prop == "C06" { c06::expand(&sc) } else { vec![sc] };
+    for sc in scs {
+        let o = run_scenario(&sc, false);
+        if let Some(v) = o.violation {
+            let mut sc2 = sc.clone();
+            sc2.tape = Some(o.tape.clone());
+            let f = Found { job: 0, sc: sc2, v };
+            let path = report_violation(prop, &f, &verif_dir());
+            let _ = std::fs::copy(&path, out);
+            println!("violation [{}] minimised -> {}", f.v.signature(), out);
+            return 1;
+        }
+    }
+    println!("no violation for this seed");
+    0
 }
 
 pub fn run_one_debug(prop: &str, world: &str, ty: usize, seed: u64, backend: &str) -> i32 {
